@@ -124,3 +124,5 @@ impl<T> ErrorExt for Result<T, ErrorImpl> {
     #[verifier::external_body]
     fn with_wrap_dropped(self) -> (r: Self) { unimplemented!() }
 }
+/// ghost record: this error is what a link probe (ProcfsHandle::readlink inside open_follow) answered
+pub uninterp spec fn probe_result(e: Error) -> bool;
